@@ -21,3 +21,25 @@ package PVM
 //@   ensures halt_yield: !c_rollback(reasonOrBytes) && !c_hash(reasonOrBytes) ==> result2 == resultContext.ResultContextX.Exception
 //@   ensures halt_output: !c_rollback(reasonOrBytes) && c_hash(reasonOrBytes) ==> result2 != nil && fresh(result2) && forall(k, 0, 32, (*result2)[k] == asbytes(reasonOrBytes)[k])
 //@   opt loopinv=frame_only() && fresh(serviceBlobs)
+
+// ---- C03: an invocation ends in one of the defined outcomes: panic, out-of-gas, or halt with an output ----
+// (the outcome is carried in an `any`: the callers compare it with PANIC / OUT_OF_GAS and type-assert []byte, so a
+// value of any other dynamic type is silently taken for a successful halt)
+//@ func (*Host).HostCall
+//@   trusted
+//@   ensures vm: result.VM != nil && result.VM.Gas != nil && result.VM.Registers != nil && result.VM.Memory != nil && wf_memv(*result.VM.Memory)
+//@   ensures spent: *result.VM.Gas <= 0 || uint64(*result.VM.Gas) <= uint64(old(h.Interpreter.Gas))
+//@   assigns everything
+
+//@ func R {outcome}
+//@   props C03
+//@   requires nonnil: Psi_H_Return.VM != nil && Psi_H_Return.VM.Gas != nil && Psi_H_Return.VM.Registers != nil && Psi_H_Return.VM.Memory != nil && wf_memv(*Psi_H_Return.VM.Memory)
+//@   ensures outcome: result1 == PANIC || result1 == OUT_OF_GAS || result1 == nil || isbytes(result1)
+//@   assigns everything
+
+//@ func Psi_M
+//@   props C03
+//@   requires size: len(code) < 4294967000 && len(argument) <= 16777216
+//@   ensures outcome: result.ReasonOrBytes == PANIC || result.ReasonOrBytes == OUT_OF_GAS || result.ReasonOrBytes == nil || isbytes(result.ReasonOrBytes)
+//@   assigns everything
+//@   opt inlinecalls=R,NewHost
